@@ -22,7 +22,7 @@ RULE = ("one evaluation = one compared value: an index row of the library-writte
         "before and just after line breaks. A case is non-trivial if the record has more than one line; distinct = distinct "
         "tuples (index source, route, plain/fast path, width class, position class of a and of b relative to line breaks, "
         "number of line breaks spanned, last-line class, CRLF, final newline, fault)")
-BUDGET = {"quick": (4000, 40), "thorough": (60000, 900)}
+BUDGET = {"quick": (12000, 40), "thorough": (200000, 900)}
 
 PATH = "/sim/g.fa"
 FAI = PATH + ".fai"
@@ -113,7 +113,7 @@ def _repro(data, route, call_text):
 def plan_ops(ctx, spec, route):
     tape = ctx.tape
     recs = spec["records"]
-    excl = ctx.excl
+    excl = False   # the four C17 findings are fixed in /repo (see known_findings.json): no generator exclusion left
     ops = []
 
     def keep(i, a, b):
@@ -201,17 +201,21 @@ def make_intervals(bnp, w, op):
     iv = Interval.from_entry_tuples(triples)
     if op["path"] == "fast" and w.route == "indexed":
         from bionumpy.encodings.string_encodings import StringEncoding
-        if op["labels"] == "reversed":
-            labels = w.names[::-1]
-        elif op["labels"] == "used":
-            labels = []
-            for i, _, _ in op["ivs"]:
-                if w.names[i] not in labels:
-                    labels.append(w.names[i])
-        else:
-            labels = list(w.names)
-        iv = bnp.replace(iv, chromosome=bnp.as_encoded_array(iv.chromosome, StringEncoding(labels)))
+        iv = bnp.replace(iv, chromosome=bnp.as_encoded_array(iv.chromosome, StringEncoding(_labels(w, op))))
     return iv
+
+
+def _labels(w, op):
+    """label list of the StringEncoding used for the fast path: file order, reversed, or only the names used"""
+    if op["labels"] == "reversed":
+        return w.names[::-1]
+    if op["labels"] == "used":
+        labels = []
+        for i, _, _ in op["ivs"]:
+            if w.names[i] not in labels:
+                labels.append(w.names[i])
+        return labels
+    return list(w.names)
 
 
 def register_interval(w, op, i, a, b):
@@ -263,8 +267,11 @@ def run_intervals(bnp, w, handle, genome, op):
         if op["path"] == "fast":
             ctx.probe("fast_path" if fast_taken else "fast_path_not_taken")
         got, fired = w.call(handle.get_interval_sequences, iv)
-        call_text = "idx.get_interval_sequences(Interval.from_entry_tuples(%r))" % (
-            [(w.names[i], a, b) for i, a, b in op["ivs"][:6]],)
+        call_text = "iv = Interval.from_entry_tuples(%r); " % ([(w.names[i], a, b) for i, a, b in op["ivs"]],)
+        if fast_taken:
+            call_text += ("from bionumpy.encodings.string_encodings import StringEncoding; iv = bnp.replace(iv, chromosome="
+                          "bnp.as_encoded_array(iv.chromosome, StringEncoding(%r))); " % (_labels(w, op),))
+        call_text += "idx.get_interval_sequences(iv)"
     ctx.steps += 1
     tags = sorted({t for t in (trigger_tag(spec, i, a, b) for i, a, b in op["ivs"]) if t})
     suffix = ("_" + tags[0]) if tags else ""
@@ -336,7 +343,7 @@ def run(ctx):
     route = tape.weighted([(3, "indexed"), (1, "genome")], "route")
     # KF candidate C17-fai-name-description: the library-written .fai keeps the header's description in the name
     # column (and Genome.from_file then fails on it): no descriptions with a library-built index in 90 % of runs
-    allow_desc = not (ctx.excl and source == "library")
+    allow_desc = True   # FX-C17-fai-name-description is fixed
     spec = F.gen_fasta(tape, max_records, max_len, max_width, allow_desc=allow_desc)
     data = F.serialize(spec)
     rows = F.rows_of(spec)
